@@ -14,7 +14,7 @@ def optOf {α} (j : Json) (k : String) (f : Json → Except String α) : Except 
   | .error _ => pure none
 
 def errTag : Err → String
-  | .runtime => "runtime" | .key => "key" | .index => "index" | .type => "type" | .value => "value"
+  | .runtime => "runtime" | .key => "key" | .index => "index" | .type => "type" | .value => "value" | .attribute => "attribute"
 
 def natJ (n : Nat) : Json := Json.num (JsonNumber.fromNat n)
 def intJ (n : Int) : Json := Json.num (JsonNumber.fromInt n)
@@ -22,6 +22,11 @@ def intJ (n : Int) : Json := Json.num (JsonNumber.fromInt n)
 def resJ {α} (f : α → Json) : Except Err α → Json
   | .ok v => Json.mkObj [("ok", f v)]
   | .error e => Json.mkObj [("err", Json.str (errTag e))]
+
+def stepCopy (il : ILN) (r : Except Err ILN) : Except String (ILN × Json) :=
+  match r with
+  | .ok il' => pure (il', Json.str "ok")
+  | .error e => pure (il, Json.mkObj [("err", Json.str (errTag e))])
 
 def stepOp (vt : Variant) (il : ILN) (op : Json) : Except String (ILN × Json) := do
   let kind ← getStr op "op"
@@ -38,7 +43,10 @@ def stepOp (vt : Variant) (il : ILN) (op : Json) : Except String (ILN × Json) :
     pure (il', resJ (fun l => Json.arr (l.map intJ).toArray) r)
   | "getitem" =>
     let sel ← natList (← op.getObjVal? "sel")
-    pure (getitem il sel, Json.str "ok")
+    let style := (getStr op "style").toOption.getD "idx"
+    -- index arrays and masks reject positions beyond the end (`IndexError`); slices clamp
+    if style != "slice" && sel.any (fun k => decide (il.len ≤ k)) then pure (il, Json.mkObj [("err", Json.str "index")])
+    else pure (getitem il (sel.filter (fun k => decide (k < il.len))), Json.str "ok")
   | "withvocab" =>
     let v2 ← natList (← op.getObjVal? "vocab")
     match withVocab vt il v2 with
@@ -47,6 +55,18 @@ def stepOp (vt : Variant) (il : ILN) (op : Json) : Except String (ILN × Json) :
   | "fields" =>
     pure (il, Json.mkObj (il.fields.map (fun nf => (nf.1, Json.arr (nf.2.map intJ).toArray))))
   | "len" => pure (il, natJ il.len)
+  | "ranks" => pure (cacheRanks il, match ranksOf il with | some r => Json.arr (r.map natJ).toArray | none => Json.null)
+  | "copyids" => stepCopy il (copyIds vt il (← natList (← op.getObjVal? "ids")))
+  | "copynums" => stepCopy il (copyNums vt il (← intList (← op.getObjVal? "nums")))
+  | "copyboth" => stepCopy il (copyBoth vt il (← natList (← op.getObjVal? "ids")) (← intList (← op.getObjVal? "nums")))
+  | "copyidsvocab" =>
+    let r := copyIdsVocab vt il (← natList (← op.getObjVal? "ids")) (← natList (← op.getObjVal? "vocab"))
+    -- as it stands the failing constructor has already asked the source for its identifiers, which fills the source's cache
+    match vt, r with
+    | .asIs, .error .attribute => pure (cacheIds il, Json.mkObj [("err", Json.str "attribute")])
+    | _, _ => stepCopy il r
+  | "dropfield" => pure (dropField il (← getStr op "name"), Json.str "ok")
+  | "setfield" => stepCopy il (setField il (← getStr op "name") (← intList (← op.getObjVal? "vals")))
   | _ => throw s!"unknown op {kind}"
 
 def run (args : Json) : Except String Json := do
